@@ -14,8 +14,8 @@ pub fn spec() -> PropSpec {
     PropSpec {
         id: "C12",
         level: "exploration",
-        rule: "generated schedules of frames and silences for 2-6 aircraft (and 'crowd' schedules with 15-40 aircraft): silences drawn from {0, 1, d-2, d-1, d, d+1, 2d}, delete_after d in {1,5,60,600}, every one of the nine formats as the refreshing frame, -U on/off, optional -f (excluded frames must neither refresh nor count). Maximal runs of frames are one reader run each; a silence is simulated by shifting every stored time stamp. History invariant after every segment: (i) heard < d whole seconds ago => row present; (ii) every aircraft heard in the segment has a last-contact stamp not older than the segment start; (iii) silent >= d, not heard in a segment with >= 12 accepted frames => absent afterwards; (iv) a row re-created after >= 12 accepted frames of the segment preceded the aircraft's first frame equals (wall-clock stamps excluded) the row the same frames create in an empty table; (v) row count <= aircraft heard within d + 12. Non-trivial = schedule with >= 1 expiry and >= 1 survival across a sweep; distinct by hash",
-        assumptions: &["a sweep is only required after 12 accepted frames within one reader run (the sweep counter lives in the reader); segments with fewer accepted frames leave expiry unconstrained", "schedules whose real run time exceeds 0.9 s are discarded (whole-second thresholds would be ambiguous)"],
+        rule: "generated schedules of frames and silences for 2-6 aircraft (and 'crowd' schedules with 15-40 aircraft): silences (millisecond resolution) drawn from {0, 1 s, d-2 s, d-1 s, d-0.6 s, d-0.35 s, d, d+1 ms, d+0.4 s, d+1 s, 2d}, delete_after d in {1,5,60,600}, every one of the nine formats as the refreshing frame, -U on/off, optional -f (excluded frames must neither refresh nor count). Maximal runs of frames are one reader run each; a silence is simulated by shifting every stored time stamp. History invariant after every segment: (i) heard < d whole seconds ago => row present; (ii) every aircraft heard in the segment has a last-contact stamp not older than the segment start; (iii) silent >= d, not heard in a segment with >= 12 accepted frames => absent afterwards; (iv) a row re-created after >= 12 accepted frames of the segment preceded the aircraft's first frame equals (wall-clock stamps excluded) the row the same frames create in an empty table; (v) row count <= aircraft heard within d + 12. Non-trivial = schedule with >= 1 expiry and >= 1 survival across a sweep; distinct by hash",
+        assumptions: &["a sweep is only required after 12 accepted frames within one reader run (the sweep counter lives in the reader); segments with fewer accepted frames leave expiry unconstrained", "ages are bounded from both sides with the measured real time of each segment; an age that straddles the limit within that error is unconstrained; schedules whose real run time exceeds 0.9 s are discarded"],
         workers: 16,
         also_nochk: false,
         fuzz_target: None,
@@ -31,7 +31,7 @@ pub fn spec() -> PropSpec {
 #[derive(Clone, Debug, Serialize, Deserialize, PartialEq, Eq, Hash)]
 pub enum Ev {
     F(u32, Frame), // address, frame
-    S(i64),
+    S(i64), // silence in milliseconds
 }
 
 #[derive(Clone, Debug, Serialize, Deserialize, PartialEq, Eq, Hash)]
@@ -48,7 +48,7 @@ fn sched_strategy() -> BoxedStrategy<Sched> {
     let d = proptest::sample::select(vec![1i64, 5, 60, 600]);
     (d, any::<bool>(), prop_oneof![3 => Just(None), 1 => proptest::sample::subsequence(vec![0u32, 4, 5, 11, 16, 17, 18, 20, 21], 1..6).prop_map(Some)], prop_oneof![4 => 2usize..=6, 1 => 15usize..=40])
         .prop_flat_map(|(d, u, f, nac)| {
-            let silence = proptest::sample::select(vec![0i64, 1, (d - 2).max(0), (d - 1).max(0), d, d + 1, 2 * d]);
+            let silence = proptest::sample::select(vec![0i64, 1000, (d - 2).max(0) * 1000, (d - 1).max(0) * 1000, d * 1000 - 350, d * 1000 - 600, d * 1000, d * 1000 + 1, d * 1000 + 400, (d + 1) * 1000, 2 * d * 1000]);
             let frame = (0..nac).prop_flat_map(|i| alphabet::frame_any(addr_of(i)).prop_map(move |f| Ev::F(addr_of(i), f)));
             // bursts of one chatty aircraft make sweeps happen
             let burst = (0..nac, 12usize..30).prop_flat_map(|(i, n)| proptest::collection::vec(alphabet::frame_any(addr_of(i)).prop_map(move |f| Ev::F(addr_of(i), f)), n..n + 1));
@@ -77,16 +77,18 @@ fn admitted(o: &Opts, f: &Frame) -> bool {
 pub fn check(s: &Sched, st: &mut Stats) -> Result<(), String> {
     let t = run::new_table();
     let d = s.opts.d;
-    let mut now = 0i64;
-    let mut last_heard: BTreeMap<u32, i64> = BTreeMap::new();
+    let d_ms = d * 1000;
+    let mut now = 0i64; // virtual milliseconds added by silences
+    // per aircraft: virtual time of the last accepted frame, and real instants bounding when it was processed
+    let mut last_heard: BTreeMap<u32, (i64, std::time::Instant, std::time::Instant)> = BTreeMap::new();
     let started = std::time::Instant::now();
     // split into segments
     let mut i = 0;
     while i < s.evs.len() {
         match &s.evs[i] {
-            Ev::S(sec) => {
-                run::shift_time(&t, *sec);
-                now += *sec;
+            Ev::S(ms) => {
+                run::shift_time_ms(&t, *ms);
+                now += *ms;
                 i += 1;
             }
             Ev::F(..) => {
@@ -101,9 +103,11 @@ pub fn check(s: &Sched, st: &mut Stats) -> Result<(), String> {
                 }
                 let acc: Vec<&(u32, Frame)> = seg.iter().filter(|(_, f)| admitted(&s.opts, f)).collect();
                 let seg_start = chrono::Utc::now().timestamp_micros();
+                let seg_start_i = std::time::Instant::now();
                 let before = run::snapshot(&t);
                 let lines: Vec<String> = seg.iter().map(|(_, f)| f.hex()).collect();
                 run::run_lines(&s.opts, &t, &lines).map_err(|e| format!("reader failed: {:?}", e))?;
+                let seg_end_i = std::time::Instant::now();
                 let after = run::snapshot(&t);
                 st.segments += 1;
                 st.frames += acc.len() as u64;
@@ -112,7 +116,7 @@ pub fn check(s: &Sched, st: &mut Stats) -> Result<(), String> {
                     return Ok(());
                 }
                 let heard_now: std::collections::BTreeSet<u32> = acc.iter().map(|(a, _)| *a).collect();
-                let ctx = |m: String| format!("segment ending at event {} (t = {} s, {} accepted frames, delete_after {} s, {}): {}", i, now, acc.len(), d, s.opts.label(), m);
+                let ctx = |m: String| format!("segment ending at event {} (virtual t = {} ms, {} accepted frames, delete_after {} s, {}): {}", i, now, acc.len(), d, s.opts.label(), m);
                 // (ii) + (i) for aircraft heard in this segment
                 for a in &heard_now {
                     let Some(r) = after.get(a) else {
@@ -123,22 +127,27 @@ pub fn check(s: &Sched, st: &mut Stats) -> Result<(), String> {
                     }
                 }
                 // (i) for aircraft heard earlier, less than d seconds ago
-                for (a, th) in &last_heard {
+                for (a, (th, heard_lo, heard_hi)) in &last_heard {
                     if heard_now.contains(a) {
                         continue;
                     }
+                    // age bounds in milliseconds: virtual silence plus the real time that passed
+                    let age_hi = (now - th) + seg_end_i.duration_since(*heard_lo).as_millis() as i64 + 2;
+                    let age_lo = (now - th) + seg_start_i.saturating_duration_since(*heard_hi).as_millis() as i64;
                     let silent = now - th;
-                    if silent < d {
+                    if age_hi < d_ms {
                         if !after.contains_key(a) {
-                            return Err(ctx(format!("aircraft {:06X} was heard {} s ago (< delete_after) but its row is gone", a, silent)));
+                            return Err(ctx(format!("aircraft {:06X} was heard at most {} ms ago (< delete_after) but its row is gone", a, age_hi)));
                         }
                         if acc.len() >= 12 {
                             st.survivals_across_sweep += 1;
                         }
+                    } else if age_lo < d_ms {
+                        // the age straddles the limit within the measurement error: unconstrained
                     } else if acc.len() >= 12 {
                         // (iii)
                         if after.contains_key(a) {
-                            return Err(ctx(format!("aircraft {:06X} has been silent for {} s (>= delete_after) and {} accepted frames arrived since, yet its row is still in the table", a, silent, acc.len())));
+                            return Err(ctx(format!("aircraft {:06X} has been silent for {} ms (>= delete_after) and {} accepted frames arrived since, yet its row is still in the table", a, silent, acc.len())));
                         }
                         if before.contains_key(a) {
                             st.expiries += 1;
@@ -147,8 +156,8 @@ pub fn check(s: &Sched, st: &mut Stats) -> Result<(), String> {
                 }
                 // (iv) fresh row after removal
                 for a in &heard_now {
-                    if let Some(th) = last_heard.get(a) {
-                        if now - th >= d {
+                    if let Some((th, _, heard_hi)) = last_heard.get(a) {
+                        if (now - th) + seg_start_i.saturating_duration_since(*heard_hi).as_millis() as i64 >= d_ms {
                             let first = acc.iter().position(|(x, _)| x == a).unwrap();
                             if first >= 12 {
                                 let own: Vec<String> = acc.iter().filter(|(x, _)| x == a).map(|(_, f)| f.hex()).collect();
@@ -172,13 +181,13 @@ pub fn check(s: &Sched, st: &mut Stats) -> Result<(), String> {
                 }
                 // (v)
                 if acc.len() >= 12 {
-                    let live = last_heard.iter().filter(|(a, th)| now - **th < d && !heard_now.contains(a)).count() + heard_now.len();
+                    let live = last_heard.iter().filter(|(a, th)| now - th.0 < d_ms + 1000 && !heard_now.contains(a)).count() + heard_now.len();
                     if after.len() > live + 12 {
                         return Err(ctx(format!("table holds {} rows but only {} aircraft were heard within the last {} s", after.len(), live, d)));
                     }
                 }
                 for a in heard_now {
-                    last_heard.insert(a, now);
+                    last_heard.insert(a, (now, seg_start_i, seg_end_i));
                 }
             }
         }
@@ -209,7 +218,7 @@ fn run(c: &mut Ctx) {
                 c.class(&format!("delete_after_{}", s.opts.d));
                 if s.opts.f.is_some() { c.class("with_filter"); }
                 if r.is_ok() && c.want_sample() && st.expiries >= 1 && s.evs.len() < 30 {
-                    c.sample(json!({"opts": s.opts.label(), "events": s.evs.iter().map(|e| match e { Ev::F(a, f) => format!("{:06X} DF{} {}", a, f.df(), f.hex()), Ev::S(n) => format!("silence {} s", n) }).collect::<Vec<_>>()}));
+                    c.sample(json!({"opts": s.opts.label(), "events": s.evs.iter().map(|e| match e { Ev::F(a, f) => format!("{:06X} DF{} {}", a, f.df(), f.hex()), Ev::S(n) => format!("silence {} ms", n) }).collect::<Vec<_>>()}));
                 }
             }
         }
@@ -230,7 +239,7 @@ fn run(c: &mut Ctx) {
                     _ => bits::ap_frame(df, a, 0),
                 };
                 let other: Vec<Ev> = (0..14).map(|_| Ev::F(addr_of(1), bits::df11(addr_of(1), 5, 0))).collect();
-                let mut evs = vec![Ev::F(a, f), Ev::S(59), Ev::F(a, f), Ev::S(59)];
+                let mut evs = vec![Ev::F(a, f), Ev::S(59_400), Ev::F(a, f), Ev::S(59_400)];
                 evs.extend(other);
                 let s = Sched { opts: Opts { d: 60, u, ..Opts::default() }, evs };
                 let mut st = Stats::default();
